@@ -1,4 +1,4 @@
-import TrustfallModel.Model.Sexp
+import Driver.Loop
 /-! Driver commands for `Value` (C08): `(cmp a b)`, `(eq a b)`. -/
 namespace TF.Driver
 open TF Sexp
